@@ -295,6 +295,8 @@ pub struct World {
     /// take a snapshot of the receiving node right before a datagram with this wire id is handled
     pub snap_before: Option<usize>,
     pub pre_snapshot: Option<NodeSnapshot>,
+    /// render every step from this time on (debugging aid, VERIF_TRACE_FROM_MS)
+    pub trace_from_ms: Option<u64>,
 }
 
 pub fn node_addr(i: usize, family: u8) -> SocketAddr {
@@ -347,6 +349,7 @@ impl World {
             aux_rng: Rng::new(rng::mix(seed, 0xa0a0)),
             snap_before: None,
             pre_snapshot: None,
+            trace_from_ms: std::env::var("VERIF_TRACE_FROM_MS").ok().and_then(|v| v.parse().ok()),
         }
     }
 
@@ -891,6 +894,26 @@ impl World {
     /// Pops and executes the next event not later than `until_ms`. None: nothing left before the limit
     /// (the clock is then advanced to the limit).
     pub fn step(&mut self, until_ms: u64) -> Option<Step> {
+        let st = self.step_inner(until_ms)?;
+        if let Some(from) = self.trace_from_ms {
+            if self.now_ms >= from && self.render.is_some() {
+                let sent: Vec<String> = st.sent.iter().map(|id| {
+                    let r = &self.wire[*id];
+                    format!("{}B/{:02x}->n{}{}", r.data.len(), r.data.first().copied().unwrap_or(0), self.node_by_addr(r.dst).map(|x| x as i64).unwrap_or(-1), r.dropped.map(|d| format!("({})", d)).unwrap_or_default())
+                }).collect();
+                let kind = match &st.kind {
+                    StepKind::Deliver { wire, accepted, .. } => format!("deliver w{} {}B/{:02x} from n{:?} acc={}", wire, self.wire[*wire].data.len(), self.wire[*wire].data.first().copied().unwrap_or(0), self.node_by_addr(self.wire[*wire].src), accepted),
+                    k => format!("{:?}", k),
+                };
+                let probes: Vec<String> = st.probes.iter().filter(|p| !matches!(p, Event::Seal { .. } | Event::NonceStart { .. })).map(|p| format!("{:?}", p)).collect();
+                let line = format!("  . n{:?} {} sent={:?} writes={} err={:?} {}", st.node, kind, sent, st.writes, st.hk_err, probes.join(" "));
+                self.note(|| line);
+            }
+        }
+        Some(st)
+    }
+
+    fn step_inner(&mut self, until_ms: u64) -> Option<Step> {
         loop {
             let at = match self.queue.peek() {
                 Some(e) => e.0.at,
